@@ -341,6 +341,8 @@ class DelayPeer(object):
                 elif verb == b'RSET':
                     self.log.append((conn, 'RSET', None))
                     in_tx = False
+                    if case.get('rset_delay'):
+                        gevent.sleep(case['rset_delay'])      # answers later than the client's command timeout
                     self.sock.sendall(b'250 ok\r\n')
                 elif verb == b'QUIT':
                     self.sock.sendall(b'221 bye\r\n')
@@ -373,7 +375,8 @@ def run_b(case):
         peers.append(DelayPeer(b, case, log))
         return a
     relay = StaticSmtpRelay('peer.example', 25, pool_size=case['size'], socket_creator=creator, context=client_ctx(),
-                            ehlo_as='relay.example', idle_timeout=case['idle'], command_timeout=5, data_timeout=5, connect_timeout=5)
+                            ehlo_as='relay.example', idle_timeout=case['idle'], command_timeout=case.get('cmd_t') or 5, data_timeout=5,
+                            connect_timeout=5)
     n = case['n']
     outs = []
     desc = repr(case)
@@ -405,7 +408,9 @@ def run_b(case):
                 if isinstance(rep, RelayError):
                     if case['faults'].get(tag) not in ('rcpt4xx', 'rcpt5xx', 'eod4xx'):
                         # a transient error without a scripted fault: only connection-level events may explain it
-                        if not (case.get('refuse') or any(v in ('then421', 'thenclose') for v in case['faults'].values())):
+                        # (with a short command timeout also a slow exchange)
+                        if not (case.get('refuse') or case.get('cmd_t') or
+                                any(v in ('then421', 'thenclose') for v in case['faults'].values())):
                             out.append(('C19:unexplained-failure', '%s: %s -> %r' % (desc, tag, rep.reply)))
                 elif tag not in (text or ''):
                     out.append(('C19:result-of-another-envelope', '%s: attempt %s received %r' % (desc, tag, text)))
@@ -580,6 +585,20 @@ def case_b(draw):
             'refuse': draw(st.lists(st.integers(1, 4), max_size=2, unique=True))}
 
 
+@st.composite
+def case_b_late_rset(draw):
+    """A transaction fails, and the peer answers the RSET that follows later than the command timeout while the next message waits."""
+    n = draw(st.integers(2, 5))
+    faults = {'m0': draw(st.sampled_from(['rcpt5xx', 'rcpt4xx', 'eod4xx']))}
+    for i in range(1, n):
+        f = draw(st.sampled_from([None, None, None, 'eod4xx', 'rcpt5xx']))
+        if f:
+            faults['m%d' % i] = f
+    return {'family': 'B', 'n': n, 'size': draw(st.sampled_from([1, 1, 2])), 'idle': 1.0, 'pipelining': draw(st.booleans()), 'delay': 0.0,
+            'stagger': draw(st.sampled_from([0.0, 0.002])), 'faults': faults, 'refuse': [], 'cmd_t': 0.2,
+            'rset_delay': draw(st.sampled_from([0.3, 0.25, 0.35]))}
+
+
 def run_shard(ctx):
     def one_a(v):
         cfg, actions = v
@@ -592,6 +611,7 @@ def run_shard(ctx):
         f, nt = run_b(case)
         ctx.record(repr(case), nt, labels=['tier=B', 'size=%s' % case['size']], case=case, failures=f)
     hyp.drive(ctx, case_b(), one_b, ctx.n(240, 4000), salt=1)
+    hyp.drive(ctx, case_b_late_rset(), one_b, ctx.n(64, 800), salt=3)
 
     def one_h(case):
         f, nt = run_http(case)
@@ -627,6 +647,10 @@ def replay(case):
                                   if v in ('eod4xx', 'rcpt4xx', 'rcpt5xx', 'then421', 'thenclose'))
             if case.get('size') not in (1, 2, 3, None):
                 return []
+            if case.get('cmd_t') is not None:
+                case['cmd_t'] = max(0.05, float(case['cmd_t']))
+            if case.get('rset_delay') is not None:
+                case['rset_delay'] = max(0.0, min(1.0, float(case['rset_delay'])))
             return run_b(case)[0]
     except (KeyError, ValueError, TypeError):
         return []
